@@ -13,13 +13,20 @@
              Schedule  the rule belongs to the strategy the function implements (StratRules)
              EndIsLast the returned diagram is the diagram after the last step
            i.e. the run is a path of SimpSteps of spec/Simp.tla (whose every path MC_Simp explores);
-           L2 for these runs: NoPanic, Terminates, Sound at the end as for `simp` *)
+           L2 for these runs: NoPanic, Terminates, Sound at the end as for `simp`
+   begin / simpf (engine flag --generic): the clause "otherwise it holds to floating-point tolerance".  begin carries a diagram
+           whose phases are NOT multiples of pi/4 (no denotation in Ring: nothing is computed); simpf is one simplifier run on
+           it.  Floating point cannot be decided by TLC: the harness evaluates pre and post with its independent float reference
+           evaluator (harness/src/refeval.rs, validated against the exact Den by Trace_Tensor!RefEvalOK) and logs the boolean
+           close = (max entry difference <= 1e-9, relative to the largest entry, at least 1).
+           L2: SoundFloat (close), NoPanic, Terminates.  res = toobig (result beyond the evaluator's bound) is counted only *)
 EXTENDS TraceLib, ZXSem, Simp, FiniteSets, FiniteSetsExt
 
 VARIABLES l, cur, den0, vset, run, nsteps, viol, drift, stats
 vars == <<l, cur, den0, vset, run, nsteps, viol, drift, stats>>
 Init == l = 1 /\ cur = EmptyG /\ den0 = <<>> /\ vset = {} /\ run = EmptyG /\ nsteps = 0 /\ viol = <<>> /\ drift = <<>>
-        /\ stats = [diagrams |-> 0, runs |-> 0, sound |-> 0, nontrivial |-> 0, step_runs |-> 0, steps |-> 0, steps_ok |-> 0, packs_renaming |-> 0]
+        /\ stats = [diagrams |-> 0, runs |-> 0, sound |-> 0, nontrivial |-> 0, step_runs |-> 0, steps |-> 0, steps_ok |-> 0, packs_renaming |-> 0,
+                    generic_diagrams |-> 0, generic_runs |-> 0, generic_close |-> 0, generic_approx |-> 0, generic_changed |-> 0, generic_toobig |-> 0]
 \* the Rust name of the unchecked rule -> the rule of spec/Rules.tla
 RuleOf(r) == CASE r = "remove_id_unchecked" -> "remove_id" [] r = "local_comp_unchecked" -> "local_comp"
                [] r = "spider_fusion_unchecked" -> "spider_fusion" [] r = "pivot_unchecked" -> "pivot"
@@ -65,6 +72,18 @@ Step(e) ==
               /\ stats' = [stats EXCEPT !.runs = @ + 1, !.sound = @ + (IF sound THEN 1 ELSE 0),
                                         !.nontrivial = @ + (IF post # cur THEN 1 ELSE 0)]
               /\ UNCHANGED <<cur, den0, vset, run, nsteps>>
+    [] e.k = "begin" -> stats' = [stats EXCEPT !.generic_diagrams = @ + 1] /\ UNCHANGED <<cur, den0, vset, run, nsteps, viol, drift>>
+    [] e.k = "simpf" ->
+         /\ viol' = IF e.res = "panic" THEN Append(viol, <<l, "NoPanic">>)
+                    ELSE IF e.res = "timeout" THEN Append(viol, <<l, "Terminates">>)
+                    ELSE IF e.res = "ok" /\ ~e.close THEN Append(viol, <<l, "SoundFloat">>)
+                    ELSE viol
+         /\ stats' = [stats EXCEPT !.generic_runs = @ + 1, !.generic_toobig = @ + (IF e.res = "toobig" THEN 1 ELSE 0),
+                                   !.generic_close = @ + (IF e.res = "ok" /\ e.close THEN 1 ELSE 0),
+                                   !.generic_approx = @ + (IF e.res = "ok" /\ e.approx THEN 1 ELSE 0),
+                                   !.generic_changed = @ + (IF e.res = "ok" /\ e.changed THEN 1 ELSE 0),
+                                   !.nontrivial = @ + (IF e.res = "ok" /\ e.changed THEN 1 ELSE 0)]
+         /\ UNCHANGED <<cur, den0, vset, run, nsteps, drift>>
     [] e.k = "rbegin" -> run' = cur /\ nsteps' = 0 /\ stats' = [stats EXCEPT !.step_runs = @ + 1] /\ UNCHANGED <<cur, den0, vset, viol, drift>>
     [] e.k = "rstep" ->
          LET post == FromAbs(e.post)
